@@ -88,8 +88,8 @@ CHECKS = {
             "rule": RULE_H + "; plus (wrap) every sequence over {create flat_xor_hd, create null, destroy slot 0..3, counter := INT_MAX-1, counter := INT_MAX} up to the stated depth, unmerged, "
                     "so that the wrapped descriptor counter meets every arrangement of <= 4 live descriptors", "assumptions": ASSUME_H},
     "C16": {"runs": [{"name": "states", "plan": "states", "srcs": H, "san": "asan", "link": LIFE_LINK, "opts": {"quick": {"slots": 3, "pin_plugins": 0}, "thorough": {"slots": 4, "pin_plugins": 0}}, "only_sites": C16_SITES},
-                     {"name": "seq", "plan": "seq", "srcs": H, "san": "asan", "link": LIFE_LINK, "opts": {"quick": {"depth": 4, "pin_plugins": 0}, "thorough": {"depth": 5, "pin_plugins": 0}}, "only_sites": C16_SITES},
-                     {"name": "seqR", "plan": "seq", "srcs": H, "san": "asan", "link": LIFE_LINK, "tiers": ("thorough",), "opts": {"thorough": {"depth": 7, "from_depth": 6, "reduced": 1, "pin_plugins": 0}}, "only_sites": C16_SITES},
+                     {"name": "seq", "plan": "seq", "srcs": H, "san": "asan", "link": LIFE_LINK, "opts": {"quick": {"depth": 4, "pin_plugins": 0}, "thorough": {"depth": 6, "pin_plugins": 0}}, "only_sites": C16_SITES},
+                     {"name": "seqR", "plan": "seq", "srcs": H, "san": "asan", "link": LIFE_LINK, "tiers": ("thorough",), "opts": {"thorough": {"depth": 8, "from_depth": 7, "reduced": 1, "pin_plugins": 0}}, "only_sites": C16_SITES},
                      {"name": "c16s", "plan": "c16s", "srcs": S, "san": "asan"}],
             "level": "model_checking", "deadline": {"quick": 150, "thorough": 1500},
             "rule": RULE_H + "; plus a sweep over all 496 RS + 38 XOR + 2x496 ISA-L shapes: encode, decode (4 erasure sets, unaligned inputs), reconstruct every index, the cleanup calls, destroy - the ledger of library allocations must be back at its baseline",
@@ -104,12 +104,15 @@ CHECKS = {
             "assumptions": ["workload of about a dozen backend calls per configuration: every (k,m) with k+m <= 10 | 16 for rs_vand, isa_l_rs_vand, isa_l_rs_cauchy; flat_xor_hd (3,3,3) (5,5,3) (6,6,4); null (2,1); rs_vand (10,4) (4,10); isa_l_rs_vand (3,12) (+3 flat_xor_hd shapes in thorough); triples of faults for k+m <= 6 | 16",
                             "a backend 'failure' is a negative / NULL return of the operation-table entry (injected by the tap), plus the init failures the back ends report themselves for 11 refused configurations (unsupported flat-XOR shapes, null / isa-l word sizes); failures inside the plug-in's primitives (matrix inversion) are C19's subject",
                             "allocation failure is not injected"]},
-    "C18": {"runs": [{"name": "asan", "plan": "asan", "srcs": T_SRCS, "san": "asan", "hooks": True, "nosan": ("vsched.c",), "opts": {"quick": {"bound": 2, "drivers": 7, "bound3": 1}, "thorough": {"bound": 3, "drivers": 10, "bound3": 2}}},
+    "C18": {"runs": [{"name": "asan", "plan": "asan", "srcs": T_SRCS, "san": "asan", "hooks": True, "nosan": ("vsched.c",), "weight": 4, "opts": {"quick": {"bound": 2, "drivers": 7, "bound3": 1}, "thorough": {"bound": 3, "drivers": 10, "bound3": 2}}},
                      {"name": "tsan", "plan": "tsan", "srcs": T_SRCS, "san": "tsan", "hooks": True, "nosan": ("vsched.c",), "opts": {"quick": {"bound": 1, "drivers": 7, "bound3": 1}, "thorough": {"bound": 2, "drivers": 10, "bound3": 1}}},
                      # data plane only, on instances created before the threads start: the threads take read locks only, so nothing orders them for TSan
-                     {"name": "tsan-data", "plan": "tsan", "srcs": T_SRCS, "san": "tsan", "hooks": True, "nosan": ("vsched.c",), "opts": {"quick": {"bound": 1, "drvmask": 0x3fc00}, "thorough": {"bound": 2, "drvmask": 0x3fc00}}},
-                     {"name": "asan-data", "plan": "asan", "srcs": T_SRCS, "san": "asan", "hooks": True, "nosan": ("vsched.c",), "opts": {"quick": {"bound": 1, "drvmask": 0x3fc00}, "thorough": {"bound": 2, "drvmask": 0x3fc00}}}],
-            "level": "model_checking", "deadline": {"quick": 200, "thorough": 1800},
+                     # thorough: two preemptions on the three shared-descriptor drivers (Urs, Uxor, Uisa), one on the other five; TSan reports a
+                     # data-plane race in every schedule anyway, the deeper bound is for the outputs
+                     {"name": "tsan-data", "plan": "tsan", "srcs": T_SRCS, "san": "tsan", "hooks": True, "nosan": ("vsched.c",), "weight": 3, "opts": {"quick": {"bound": 1, "drvmask": 0x3fc00}, "thorough": {"bound": 2, "drvmask": 0x1c00}}},
+                     {"name": "tsan-data-b1", "plan": "tsan", "srcs": T_SRCS, "san": "tsan", "hooks": True, "nosan": ("vsched.c",), "tiers": ("thorough",), "opts": {"thorough": {"bound": 1, "drvmask": 0x3e000}}},
+                     {"name": "asan-data", "plan": "asan", "srcs": T_SRCS, "san": "asan", "hooks": True, "nosan": ("vsched.c",), "opts": {"quick": {"bound": 1, "drvmask": 0x3fc00}, "thorough": {"bound": 1, "drvmask": 0x3fc00}}}],
+            "level": "model_checking", "deadline": {"quick": 200, "thorough": 2400},
             "rule": ("stateless depth-first enumeration of all interleavings of 2-3 real threads under a serialising scheduler: scheduling points are the guarded yield hooks in the "
                      "registry and GF-table code and every rwlock/mutex operation (modelled, so a thread asking for a held lock is disabled); iterative preemption bounding; each "
                      "schedule is one execution of the real library in a forked child, once under AddressSanitizer and once under ThreadSanitizer (the scheduler's futex hand-offs are "
@@ -127,7 +130,7 @@ CHECKS = {
                       "opts": {"quick": {"bound": 1, "drivers": 2}, "thorough": {"bound": 2, "drivers": 5}}, "only_sites": r"result-differs-from-sequential"},
                      # thread independence of the data plane: state shared between calls (a static scratch buffer, a cached flag) is a conflicting access TSan reports
                      {"name": "threads-data", "plan": "tsan", "srcs": T_SRCS, "san": "tsan", "hooks": True, "nosan": ("vsched.c",),
-                      "opts": {"quick": {"bound": 1, "drvmask": 0x3fc00}, "thorough": {"bound": 2, "drvmask": 0x3fc00}}, "only_sites": r"result-differs-from-sequential|tsan-data-race"}],
+                      "opts": {"quick": {"bound": 1, "drvmask": 0x3fc00}, "thorough": {"bound": 2, "drvmask": 0x1c00}}, "only_sites": r"result-differs-from-sequential|tsan-data-race"}],
             "level": "model_checking", "deadline": {"quick": 150, "thorough": 1200},
             "rule": ("(1) data plane: every shape x three lengths x all erasure sets within tolerance (exhaustive for n <= 8 | 10) x decode + reconstruct of every index, with the caller's data, "
                      "fragments, pointer array and index lists on read-only pages that end at (or start after) a PROT_NONE page, in three placements (end-abutting, 16-aligned start, "
